@@ -163,37 +163,41 @@ def extract(repo):
     linesep = _lit(_class_assign(tcls, '_linesep'))
     simpleescapes = _compiled_pattern(_module_assign(htree, '_simpleescapes'), '_simpleescapes')
 
-    # literal constants inside Tokenizer.tokenize, by syntactic shape
+    # literal constants inside Tokenizer.tokenize, by syntactic shape only (local variable names are not looked at,
+    # so renaming a local does not disturb the translation)
     fast, unesc, clean, ends, hasat, andword, urlfn, cpl, charset_kw, charset_sym = [], [], [], [], [], [], [], [], [], []
+
+    def str_tuple(node):
+        return isinstance(node, ast.Tuple) and node.elts and all(
+            isinstance(e, ast.Constant) and isinstance(e.value, str) for e in node.elts)
+
     for node in ast.walk(fn):
         if isinstance(node, ast.Compare) and len(node.ops) == 1:
             left, op, right = node.left, node.ops[0], node.comparators[0]
-            if isinstance(op, ast.In) and isinstance(left, ast.Name) and left.id == 'c' and isinstance(right, ast.Constant):
-                fast.append(right.value)
-            elif isinstance(op, ast.In) and isinstance(left, ast.Name) and left.id == 'name' and isinstance(right, ast.Tuple):
-                t = tuple(_lit(right))
+            if isinstance(op, ast.In) and isinstance(left, ast.Name) and isinstance(right, ast.Constant) \
+                    and isinstance(right.value, str):
+                fast.append(right.value)                                 # c in ',:;{}>[]'
+            elif isinstance(op, ast.In) and isinstance(left, ast.Name) and str_tuple(right):
+                t = tuple(_lit(right))                                   # name in (...)
                 (unesc if len(t) > 2 else clean).append(t)
             elif isinstance(op, ast.NotEq) and isinstance(left, ast.Call) and isinstance(left.func, ast.Attribute) \
                     and left.func.attr == 'lower' and isinstance(right, ast.Constant):
-                andword.append(right.value)
-            elif isinstance(op, ast.Eq) and isinstance(left, ast.Constant) and isinstance(right, ast.Call) \
-                    and isinstance(right.func, ast.Name) and right.func.id == '_normalize':
-                urlfn.append(left.value)
-            elif isinstance(op, ast.Eq) and isinstance(left, ast.Constant) and isinstance(right, ast.Name) \
-                    and right.id == 'found':
-                charset_kw.append(left.value)
-        elif isinstance(node, ast.For) and isinstance(node.target, ast.Name) and node.target.id == 'end' \
-                and isinstance(node.iter, ast.Tuple):
-            ends.append(tuple(_lit(node.iter)))
+                andword.append(right.value)                              # found.lower() != "and"
+            elif isinstance(op, ast.Eq) and isinstance(left, ast.Constant) and isinstance(right, ast.Call):
+                urlfn.append(left.value)                                 # 'url(' == _normalize(found)
+            elif isinstance(op, ast.Eq) and isinstance(left, ast.Constant) and isinstance(left.value, str) \
+                    and left.value.startswith('@') and isinstance(right, ast.Name):
+                charset_kw.append(left.value)                            # '@charset' == found
+        elif isinstance(node, ast.For) and str_tuple(node.iter):
+            ends.append(tuple(_lit(node.iter)))                          # for end in ("')", '")', ')')
         elif isinstance(node, ast.Call) and isinstance(node.func, ast.Name) and node.func.id == 'has_at' \
                 and len(node.args) == 3 and isinstance(node.args[2], ast.Constant):
             hasat.append(node.args[2].value)
         elif isinstance(node, ast.BinOp) and isinstance(node.op, ast.Mod) and isinstance(node.left, ast.Constant) \
                 and isinstance(node.left.value, str) and node.left.value.startswith('%s'):
-            cpl.append(node.left.value[2:])
-        elif isinstance(node, ast.Assign) and len(node.targets) == 1 and isinstance(node.targets[0], ast.Name) \
-                and node.targets[0].id == 'name' and isinstance(node.value, ast.Attribute):
-            charset_sym.append(sym(node.value))
+            cpl.append(node.left.value[2:])                              # '%s*/' % text[pos:]
+        elif isinstance(node, ast.Attribute) and isinstance(node.value, ast.Name) and node.value.id == 'CSSProductions':
+            charset_sym.append(sym(node))                                # CSSProductions.CHARSET_SYM
     # has_at constants in source order: '@charset ', '/*', ' '
     hasat_set = []
     for h in hasat:
